@@ -1,6 +1,6 @@
 (* C03 — NodePool limits and static node caps are never exceeded.
    Property theorems only; each is closed by [exact] of a lemma from C03/Proofs*.v. *)
-From KV Require Import C03.Model C03.Proofs C03.Proofs1 C03.Proofs2.
+From KV Require Import C03.Model C03.Proofs C03.Proofs1 C03.Proofs2 C03.Check C03.Proofs3.
 Open Scope Z_scope.
 
 (* ---------------------------------------------------------------- static pools: the bookkeeping *)
@@ -146,6 +146,13 @@ Theorem oracle_within_iff : forall limits existing launched,
   within_b limits existing launched = true <-> within limits existing launched.
 Proof. exact within_b_spec. Qed.
 Print Assumptions oracle_within_iff.
+
+Theorem oracle_reserve_iff : forall pools np l w after d,
+  0 <= w -> dump_of pools after np = Some d ->
+  (reserve_ok pools (OReserve np l w) after = true <->
+   0 <= o_out after <= w /\ (0 < o_out after -> d_cnt d + d_res d <= l)).
+Proof. exact reserve_ok_spec. Qed.
+Print Assumptions oracle_reserve_iff.
 
 (* ---------------------------------------------------------------- non-vacuity *)
 Open Scope string_scope.
